@@ -245,7 +245,7 @@ func runAppendDuringFlush(o *hx.Out) {
 func runGeneratedKills(o *hx.Out, r *hx.Rng, steps int) {
 	h := newH(o)
 	h.captureFlush = true
-	g := &gen{h: h, r: r, plan: map[int64][3]int64{}, done: map[int64]bool{}, raced: true, raced2: true}
+	g := &gen{h: h, r: r, seen: -1, plan: map[int64][3]int64{}, done: map[int64]bool{}, raced: true, raced2: true}
 	g.newTerm(2)
 	h.settle()
 	kills := 0
